@@ -8,6 +8,7 @@ import PcfgVerif.Generated.RuleDir
 import PcfgVerif.Lemmas.OmenFilesC
 import PcfgVerif.Properties.OmenTrainCore
 import PcfgVerif.Lemmas.OmenTextLemmas
+import PcfgVerif.Lemmas.OmenAlphabetLemmas
 /-!
 # C07 — a saved ruleset means the same thing to every tool that loads it
 
@@ -258,6 +259,12 @@ theorem C07_omen_text_roundtrip (records : List (Nat × CPs))
     (h : ∀ r ∈ records, ∀ c ∈ r.2, isLineSep c = false ∧ c ≠ 9) :
     loadOmenText (omenFileText records) = some records :=
   loadOmenText_omenFileText records h
+
+/-- **`Omen/alphabet.txt`** (`_save_alphabet`: one letter per line; the guesser's `_load_alphabet`: line iteration and
+`rstrip('\n\r')`): the file reads back as the alphabet written, letter by letter - a blank, U+00A0 or U+3000 stays the letter it is -/
+theorem C07_omen_alphabet_roundtrip (letters : CPs) (h : ∀ c ∈ letters, isLineSep c = false) :
+    Omen.loadAlphabet (Omen.alphabetText letters) = letters.map fun c => [c] :=
+  Omen.loadAlphabet_alphabetText letters h
 
 /-- non-vacuity (kernel-evaluated): an n-gram ending in a space, one ending in U+3000, level 10 -/
 example : loadOmenText (omenFileText [(0, [97, 32]), (10, [98, 0x3000]), (3, [32, 32])]) =
